@@ -209,6 +209,11 @@ def run(facts, R):
     vals = sorted(v for g, v in rows)
     allowed = {"Option::Some{0: '/'}", "Option::Some{0: arg2}", "Option::None{}",
                "Option::Some{0: (Try>::branch(<impl str>::strip_prefix(arg2, arg1.prefix)) as Continue).0}"}
+    # strip_prefix(..).filter(|rest| rest.starts_with('/')) hands out the same remainder (the boundary test is C07's)
+    filt = "Option::filter(<impl str>::strip_prefix(arg2, arg1.prefix), {closure#"
+    fclos = [render(Sym(c).local(0)) for c in facts.children(pf.path)]
+    vals = [("Option::Some{0: (Try>::branch(<impl str>::strip_prefix(arg2, arg1.prefix)) as Continue).0}"
+             if (v.startswith(filt) and all("starts_with(" in x for x in fclos)) else v) for v in vals]
     unknown = [v for v in vals if v not in allowed and "from_residual" not in v]
     R.check(not unknown and "Option::Some{0: (Try>::branch(<impl str>::strip_prefix(arg2, arg1.prefix)) as Continue).0}" in vals, "pointer-suffix", pf.path, "mount passes the stripped remainder unmodified",
             "pointer_for can return %s" % unknown, pf.span, "remainder of strip_prefix, \"/\" or the path itself")
